@@ -165,3 +165,59 @@ Qed.
 
 Lemma clone_lookup_complete_l fuel th : endpoint_getattr true true th (S fuel) NPlain = if th then Found else AttrErr.
 Proof. reflexivity. Qed.
+
+(* ---- a labelled plan (what the harness derives from the real interleaving)
+   is a schedule of the semantics the theorems quantify over ---- *)
+Lemma cexec_app mv s1 s2 c : cexec mv (s1 ++ s2) c = cexec mv s2 (cexec mv s1 c).
+Proof.
+  unfold cexec. revert c. induction s1 as [|i s1 IH]; intro c; cbn; [reflexivity|apply IH].
+Qed.
+
+Lemma run_to_is_schedule mv fuel i total tgt :
+  forall c ps, exists n, run_to mv fuel i total tgt c ps = cexec mv (repeat i n) (c, ps).
+Proof.
+  induction fuel as [|f IH]; intros c ps; cbn [run_to].
+  - exists 0%nat. reflexivity.
+  - destruct (nth_error ps i) as [st|]; [|exists 0%nat; reflexivity].
+    destruct (pos_reached tgt (pos_of total st)); [exists 0%nat; reflexivity|].
+    destruct (IH (fst (cstepi mv i (c, ps))) (snd (cstepi mv i (c, ps)))) as [n Hn].
+    exists (S n). rewrite Hn. cbn [repeat]. unfold cexec, cstepi. cbn [exec].
+    destruct (stepi cloc cval cstate cloc_eqb (cnext mv) i (c, ps)); reflexivity.
+Qed.
+
+Lemma run_plan_is_schedule_l mv calls plan :
+  forall c, exists sched, run_plan mv calls plan c = cexec mv sched c.
+Proof.
+  induction plan as [|[i tgt] rest IH]; intro c; cbn [run_plan].
+  - exists []. reflexivity.
+  - destruct (nth_error calls i) as [k|].
+    + destruct (run_to_is_schedule mv (prog_len k) i (length (call_code k)) tgt (fst c) (snd c)) as [n Hn].
+      rewrite Hn. destruct (IH (cexec mv (repeat i n) (fst c, snd c))) as [s Hs].
+      exists (repeat i n ++ s). rewrite Hs, cexec_app. destruct c; reflexivity.
+    + apply IH.
+Qed.
+
+(* ---- no class-level and no per-binding state ---- *)
+Lemma no_class_level_writes_l k l :
+  call_wf k = true -> fW (fp_of_code (call_code k)) l = true -> class_owned l = true ->
+  exists key, l = LFactory key.
+Proof.
+  intros Wf H C. unfold fp_of_code in H. cbn [fR fW] in H. apply existsb_cloc in H. apply (wlocs_call default_mv) in H.
+  destruct H as [->|[->|[->|[H|[->| ->]]]]]; try discriminate.
+  pose proof (call_wf_cache k l Wf H) as M.
+  destruct l; cbn in M, C; try discriminate. exists k0. reflexivity.
+Qed.
+
+Lemma no_binding_cell_l k l :
+  call_wf k = true ->
+  fW (fp_of_code (call_code k)) l = true \/ fR (fp_of_code (call_code k)) l = true ->
+  binding_owned l = false.
+Proof.
+  intros Wf [H|H]; unfold fp_of_code in H; cbn [fR fW] in H; apply existsb_cloc in H.
+  - apply (wlocs_call default_mv) in H.
+    destruct H as [->|[->|[->|[H|[->| ->]]]]]; try reflexivity.
+    pose proof (call_wf_cache k l Wf H) as M. destruct l; cbn in M; try discriminate; reflexivity.
+  - apply (rlocs_call default_mv) in H.
+    destruct H as [->|[->|[H|[->| ->]]]]; try reflexivity.
+    pose proof (call_wf_cache k l Wf H) as M. destruct l; cbn in M; try discriminate; reflexivity.
+Qed.
